@@ -12,6 +12,9 @@ def repo_variant():
     read off its source text: flags in the order of RelWrap.variant (qual_node, substvars,
     entry_ord, ctl_subst).  The model compared with the implementation is the model of THAT code;
     the theorems are about 1111 (RelWrap.fixed)."""
+    forced = os.environ.get("VERIF_C13_MODEL", "")
+    if re.fullmatch(r"[01]{4}", forced):
+        return forced                      # manual override, e.g. VERIF_C13_MODEL=0000 for the shipped model
     def flat(p):
         try:
             return re.sub(r"\s+", " ", open(os.path.join(core.REPO, p), encoding="utf-8").read())
